@@ -10,7 +10,7 @@ PROPERTY_ID = "C09"
 LEVEL = "exploration"
 RULE = (
     "generated compositions (ensembles incl. the online ensemble, transformed-target "
-    "pipelines, multiplexers, stacking; members plain or themselves composite), series, "
+    "pipelines (incl. a skip-inverse cleaning step at any position), multiplexers, stacking; members plain or themselves composite), series, "
     "relative/absolute horizons and 0..2 updates; oracle = manual composition of "
     "independently built parts, and recording final steps / members / meta-regressors whose "
     "call logs are compared with the manual transform chain and the hold-out arithmetic. "
